@@ -575,11 +575,14 @@ fn hash_addrs(i: &Input) -> String {
         addrs.push(ContentAddress(a)); k += 1;
     }
     let salt: Option<[u8; 32]> = i.get("salt").map(|s| { let mut a = [0u8; 32]; for (j, b) in bytes(s).into_iter().enumerate().take(32) { a[j] = b; } a });
+    let via_iter = get(i, "via_iter") == "1";
     let run = |v: &Vec<ContentAddress>| -> ContentAddress {
         let mut v = v.clone();
-        match &salt {
-            Some(s) => essential_hash::contract_addr::from_predicate_addrs_slice(&mut v, s),
-            None => essential_hash::solution_set_addr::from_solution_addrs_slice(&mut v),
+        match (&salt, via_iter) {
+            (Some(s), false) => essential_hash::contract_addr::from_predicate_addrs_slice(&mut v, s),
+            (Some(s), true) => essential_hash::contract_addr::from_predicate_addrs(v, s),
+            (None, false) => essential_hash::solution_set_addr::from_solution_addrs_slice(&mut v),
+            (None, true) => essential_hash::solution_set_addr::from_solution_addrs(v),
         }
     };
     let base = run(&addrs);
